@@ -654,6 +654,9 @@ class NpyArray:
 
     def __setitem__(self, sl, value):
         """Set data at slice `sl` to `value`."""
+        # Make pending length changes durable before modifying existing data in place
+        if self._header_bytes_to_write:
+            self.flush()
         self.memmap[sl] = value
 
     def __len__(self):
